@@ -1,7 +1,8 @@
 """C20 — a table object stays valid and leak-free across any history, even failed calls.
 
 Correspondence: operation histories (<= 25 ops over 1..3 objects, valid and invalid arguments, reads of valid /
-truncated / non-FITS inputs from disk and from memory) are run through the REAL splinetable<CheckAlloc> (checking
+truncated / non-FITS inputs from disk and from memory, write_key / remove_key over a pool of 16 key names; plus the family
+"10..16 stored keys, removals at the first / a middle / the last position, further writes") are run through the REAL splinetable<CheckAlloc> (checking
 allocator as the Alloc template argument, ASan/UBSan/LSan build) and through the extracted ObjModel; for every
 history also every position of ONE injected allocation failure.  After every operation the outcome class, the
 field-by-field ownership picture (null / live block of N bytes / non-null-not-live), ndim/naux/shape, the live
@@ -18,18 +19,24 @@ ASSUMPTIONS = [
     "the tie is the exact differential comparison of this run",
     "knot/coefficient VALUES, cfitsio and the fitter's numerics are outside the model: which phase of a read fails, whether a write or the "
     "fitter fails are oracle inputs (all values quantified in the theorems; in the tie they are taken from the exception the real code threw)",
-    "allocation failures enter only through the Alloc template parameter (allocate<T>); operator new inside the library (scratch arrays) is not failed",
+    "allocation failures enter only through the Alloc template parameter (allocate<T>); operator new inside the library (scratch arrays) is not failed — "
+    "with one exception: while remove_key runs, the harness's replacement of the global operator new[] / delete[] counts, fails and leak-checks arrays "
+    "too (a remove_key that parks the surviving entries in `new char_ptr_ptr[]`: the unchanged tree)",
     "evaluating an EMPTY table is outside the property (documented precondition, splinetable.h:139); histories never use a destroyed object",
     "C20_invariant / C20_balanced / C20_safe quantify over histories satisfying wf_op: the op names one of the model's 4 object slots; a file that passes "
     "the dimension check has ndim >= 1 (fitsio.h:193 throws otherwise) and ndim entries in naxes[]; a fit that passes the sanity checks of fit.h:26-67 has "
     "ndim >= 1 and as many knot vectors as orders; the byte count of a key is a function of the key. Each condition is shown necessary on the model "
     "(C20_wf_needed_*); none restricts the code",
 ]
-TRUSTED_EXTRA = ["harness/C20_harness.cpp checking allocator (shared registry; detects double free / foreign pointer / size mismatch / leak; fault injection)",
-                 "tools/translators/objfixes.py (which proposed fixes the tree contains -> Generated_objfixes.tree_cfg)"]
+TRUSTED_EXTRA = ["harness/C20_harness.cpp checking allocator (shared registry; detects double free / foreign pointer / size mismatch / leak; fault injection; "
+                 "global operator new[] / delete[] replaced and put under the same bookkeeping while a remove_key call runs)",
+                 "tools/translators/objfixes.py (which proposed fixes the tree contains -> Generated_objfixes.tree_cfg; remove_key's body must match one of two texts)"]
 
-KEYS = {"KEY1": 1, "KEY2": 2, "KEY3": 3, "KEY4": 4, "KEY5": 5, "KEY6": 6, "LONGKEYNAME7": 7}
+KEYS = {"KEY1": 1, "KEY2": 2, "KEY3": 3, "KEY4": 4, "KEY5": 5, "KEY6": 6, "LONGKEYNAME7": 7,
+        # 16 names: histories with 10 and more stored keys occur (remove_key's behaviour depends on the number of stored keys)
+        "KEY8": 8, "KEY9": 9, "KEY10": 10, "KEY11": 11, "KEY12": 12, "KEY13": 13, "KEY14": 14, "LONGKEYNAME15": 15, "K16": 16}
 KEYNAME = {v: k for k, v in KEYS.items()}
+NKEYS = len(KEYS)
 SHAPES = [  # name, [(order, nknots)], [(key, value)]
     ("s1", [(2, 8)], [("KEY1", "hello"), ("KEY2", "12345678901")]),
     ("s2", [(2, 7), (1, 6)], []),
@@ -62,6 +69,7 @@ def classify_msg(kind, outcome, msg):
     if "failed_to_open" in msg: return "fail open"
     if msg == "bad_alloc" or "Unable_to_allocate_storage" in msg: return "fail alloc"
     if "contains_no_data" in msg: return "fail empty"
+    if kind == "dkey": return "fail input"     # remove_key has no argument checks: nothing but bad_alloc is expected from it
     if kind in ("wkey", "wkeyi", "perm", "conv"): return "fail invalid"
     if kind == "fit" and "GLAM" not in msg: return "fail invalid"
     return "fail input"
@@ -169,7 +177,7 @@ class Env:
 
 def tree_cfg_bits():
     p = os.path.join(COQDIR, "theories", "Generated_objfixes.v")
-    m = re.search(r"tree_cfg_bits\s*:=\s*\"([01]{8})\"", open(p).read())
+    m = re.search(r"tree_cfg_bits\s*:=\s*\"([01]{9})\"", open(p).read())
     return m.group(1)
 
 def parse_cases(text):
@@ -224,18 +232,24 @@ def gen_history(rng, env, maxlen=25):
                 key, val = rng.choice([("bad", "x"), ("NAXIS1", "3"), ("KEY1", "v" * 80), ("ORDER", "1")])
                 ops.append({"k": "wkey", "j": j, "key": key, "val": val, "invalid": True})
             else:
-                kid = rng.rint(1, 7); key = KEYNAME[kid]
+                kid = rng.rint(1, NKEYS if rng.chance(0.5) else 7); key = KEYNAME[kid]
                 val = "v" * rng.rint(1, 24) if rng.chance(0.7) else str(rng.rint(0, 99999))
                 ops.append({"k": "wkey", "j": j, "key": key, "val": val, "invalid": False})
                 if kid not in o["keys"]: o["keys"].append(kid)
-        elif c < 57:
+        elif c < 52:
+            # remove_key: mostly a key the table holds (hit, any position), sometimes one it does not hold (miss)
+            if o["keys"] and rng.chance(0.75): kid = rng.choice(o["keys"])
+            else: kid = rng.rint(1, NKEYS)
+            ops.append({"k": "dkey", "j": j, "key": KEYNAME[kid]})
+            if kid in o["keys"]: o["keys"].remove(kid)
+        elif c < 59:
             if o["nd"] and o["convs"] < 1 and not (risky and rng.chance(0.3)):
                 # the blossom recursion is exponential in the order: a second convolution only with a 2-knot kernel
                 nk = 2 if o["convs"] else rng.rint(2, 3)
                 ops.append({"k": "conv", "j": j, "dim": rng.below(o["nd"]), "nk": nk}); o["convs"] += nk - 1
             elif risky:
                 ops.append({"k": "conv", "j": j, "dim": o["nd"] + rng.below(2), "nk": rng.rint(1, 2)})
-        elif c < 65:
+        elif c < 66:
             if o["nd"] and rng.chance(0.7):
                 p = list(range(o["nd"])); rng.shuffle(p)
                 ops.append({"k": "perm", "j": j, "p": p})
@@ -243,7 +257,7 @@ def gen_history(rng, env, maxlen=25):
                 p = rng.choice([[0, 0], [5], list(range(o["nd"] + 1)), []]) if o["nd"] else rng.choice([[0], []])
                 if o["nd"] and p == [] : p = [7]
                 ops.append({"k": "perm", "j": j, "p": p})
-        elif c < 72:
+        elif c < 73:
             s = free_slot()
             if s is None: continue
             ops.append({"k": "movector", "j": s, "i": j}); objs[s] = o; objs[j] = {"nd": 0, "keys": [], "convs": 0}
@@ -269,6 +283,54 @@ def gen_history(rng, env, maxlen=25):
         ops.append({"k": "del", "j": j})
     return ops
 
+def gen_many_keys(rng, env, n, maxkeys=14):
+    """the family `many keys, then removals in every position (first / middle / last), then further writes`:
+    one object (empty, or read from a file that already carries keys, or with keys written before the read) receives 10..maxkeys
+    distinct keys, then keys are removed at the first, a middle and the last position of the table as it then is (in every order
+    over the family, n = running number) with misses in between, then keys are written again (a removed one, a new one, an update),
+    then one more removal; at the end the object is sometimes moved before it is destroyed."""
+    ops = [{"k": "new", "j": 0}]
+    keys = []                      # shadow of the key table, in table order
+    if n % 3 == 1:                 # a populated table that brings its own keys
+        vn = SHAPES[rng.choice([0, 2, 3, 4])][0]
+        ops.append({"k": rng.choice(["read", "readmem"]) if "readmem" in env.inputs[vn] else "read", "j": 0, "in": vn})
+        keys = [KEYS[k] for k, _ in SHAPES[env.inputs[vn]["shape"]][2]]
+    pool = [k for k in range(1, NKEYS + 1) if k not in keys]; rng.shuffle(pool)
+    want = rng.rint(10, maxkeys)
+    def val(): return "v" * rng.rint(1, 24) if rng.chance(0.7) else str(rng.rint(0, 99999))
+    while len(keys) < want and pool:
+        k = pool.pop(); keys.append(k)
+        ops.append({"k": "wkey", "j": 0, "key": KEYNAME[k], "val": val(), "invalid": False})
+    removed = []
+    orders = [("first", "middle", "last"), ("last", "first", "middle"), ("middle", "last", "first"),
+              ("first", "last", "middle"), ("last", "middle", "first"), ("middle", "first", "last")]
+    for pos in orders[n % 6]:
+        if not keys: break
+        i = 0 if pos == "first" else len(keys) - 1 if pos == "last" else rng.rint(1, max(1, len(keys) - 2))
+        k = keys.pop(i); removed.append(k)
+        ops.append({"k": "dkey", "j": 0, "key": KEYNAME[k], "pos": pos, "stored": len(keys) + 1})
+        if rng.chance(0.4):
+            ops.append({"k": "dkey", "j": 0, "key": KEYNAME[rng.choice(removed)], "pos": "miss", "stored": len(keys)})
+    # further writes: a removed key comes back (appended at the end), an existing one is updated, a fresh one if any is left
+    if removed:
+        k = rng.choice(removed); removed.remove(k); keys.append(k)
+        ops.append({"k": "wkey", "j": 0, "key": KEYNAME[k], "val": val(), "invalid": False})
+    if keys:
+        ops.append({"k": "wkey", "j": 0, "key": KEYNAME[rng.choice(keys)], "val": val(), "invalid": False})
+    if pool:
+        k = pool.pop(); keys.append(k)
+        ops.append({"k": "wkey", "j": 0, "key": KEYNAME[k], "val": val(), "invalid": False})
+    if keys:
+        i = rng.below(len(keys)); k = keys.pop(i)
+        ops.append({"k": "dkey", "j": 0, "key": KEYNAME[k], "pos": "any", "stored": len(keys) + 1})
+    if n % 3 == 2 and len(ops) < 27:          # the keys written first, the table read afterwards (read_fits replaces the key table)
+        ops.append({"k": "read", "j": 0, "in": SHAPES[rng.choice([0, 2])][0]})
+    last = 0
+    if n % 4 == 3:
+        ops.append({"k": "movector", "j": 1, "i": 0}); ops.append({"k": "dkey", "j": 1, "key": KEYNAME[rng.rint(1, NKEYS)]}); ops.append({"k": "del", "j": 1})
+    ops.append({"k": "del", "j": 0})
+    return ops
+
 def render(env, cid, ops, fault, lsan=True):
     """-> (harness text, model text)"""
     H = ["case %s %d" % (cid, fault)]; M = ["case %s %d %s" % (cid, fault, env.cfgbits)]
@@ -283,6 +345,8 @@ def render(env, cid, ops, fault, lsan=True):
         elif k == "wkey":
             H.append("op wkey %d %s %s" % (j, o["key"], o["val"]))
             M.append("op wkey %d %d %d %d %d" % (j, 1 if o["invalid"] else 0, KEYS.get(o["key"], 0), len(o["key"]) + 1, len(o["val"]) + 1))
+        elif k == "dkey":
+            H.append("op dkey %d %s" % (j, o["key"])); M.append("op dkey %d %d" % (j, KEYS.get(o["key"], 0)))
         elif k == "conv":
             H.append("op conv %d %d %d %s" % (j, o["dim"], o["nk"], " ".join(str(0.5 * x) for x in range(o["nk"]))))
             M.append("op conv %d %d %d" % (j, o["dim"], o["nk"]))
@@ -306,6 +370,8 @@ def canon_impl(lines):
         w = l.split()
         if w[0] == "r":
             cur = {"kind": w[2], "out": classify_msg(w[2], w[3], w[4]), "msg": w[4], "d": {}, "h": None}
+            if w[2] == "dkey" and w[3] == "ok":       # the return value of remove_key is part of the outcome: true = the key was there
+                cur["out"] = "ok hit" if w[4] == "true" else "ok miss"
             ops.append(cur)
         elif w[0] == "d":
             kv = dict(x.split("=", 1) for x in w[2:])
@@ -346,6 +412,17 @@ EMPTY_KEYS = ("order", "knots", "nknots", "extents", "periods", "coeff", "naxes"
 def is_empty_dump(d):
     return d["ndim"] == "0" and d["naux"] == "0" and all(d[k] == "N" for k in EMPTY_KEYS)
 
+def aux_keys(d):
+    """key ids of a dumped object in table order; None when the dump could not walk the table (aux not a live block of 8*naux bytes)"""
+    if d["naux"] == "0": return []
+    if d.get("auxe", "-") == "-": return None
+    ks = []
+    for e in d["auxe"].split(","):
+        m = re.search(r"/(k\d+)=", e)
+        if not m: return None
+        ks.append(m.group(1))
+    return ks
+
 def oracle(ops, iops, crash, fault):
     """the property's statement on the implementation's output alone. Returns first anomaly (signature, text) or None."""
     prev = {}
@@ -369,6 +446,19 @@ def oracle(ops, iops, crash, fault):
             if d is not None and before is not None and d != before and not is_empty_dump(d):
                 return ("C20:%s:failed-op-leaves-partial-state%s" % (kind, why),
                         "op %d (%s) failed (%s) and left the object neither unchanged nor empty: %s" % (k, o["k"], r["msg"], d))
+        if o["k"] == "dkey" and r["out"].startswith("ok") and d is not None and prev.get(("d", j)) is not None:
+            # key edit: exactly the named key goes (first match), everything else stays where it was; a miss changes nothing
+            bk, ak = aux_keys(prev[("d", j)]), aux_keys(d)
+            kid = "k%d" % KEYS.get(o["key"], 0)
+            if bk is not None:
+                if (r["out"] == "ok hit") != (kid in bk):
+                    return ("C20:dkey:wrong-result", "op %d remove_key(%s) returned %s but the table %s the key" % (k, o["key"], r["msg"], "holds" if kid in bk else "does not hold"))
+                exp = list(bk)
+                if kid in exp: exp.remove(kid)
+                if ak != exp:
+                    return ("C20:dkey:key-table", "op %d remove_key(%s): key table afterwards %s, expected %s" % (k, o["key"], ak, exp))
+                if kid not in bk and d != prev[("d", j)]:
+                    return ("C20:dkey:miss-changes-object", "op %d remove_key(%s) of an absent key changed the object: %s" % (k, o["key"], d))
         if o["k"] in ("read", "readmem") and r["out"] == "ok":
             before = prev.get(("d", j))
             if before is not None and before["ndim"] != "0":
@@ -482,7 +572,7 @@ def analyse(env, cases, res, out, stats):
             sig, what = orc
             stats.setdefault("oracle_signatures", {}); stats["oracle_signatures"][sig] = stats["oracle_signatures"].get(sig, 0) + 1
             out.violation(sig, what, payload_of(env, cid, ops, fault, {"oracle": what, "model_agrees": diff is None}))
-        if env.cfgbits == "11111111" and mops:
+        if env.cfgbits == "111111111" and mops:
             # C20_invariant / C20_never_ub / C20_clean / C20_balanced are PROVED (Properties_C20.v) for every history that satisfies wf_op
             # (every generated history does: slots < 4, ndim >= 1, one length per key); the same facts are re-checked here on the extracted
             # model for this very case — a disagreement would mean the extracted model is not the proved one, or a history leaves wf_op
@@ -543,13 +633,16 @@ def run(info, out):
         print("crash:", crash)
         nd, no = analyse(env, cases, res, out, stats)
         print("replay: oracle anomalies %d, model/impl disagreements %d %s" % (no, nd, stats.get("diffs", "")))
-        return {"evaluations": 1, "distinct_nontrivial": 2, "rule": "replay of " + info["replay"], "samples": [p["harness_case"][:400]]}
+        return {"evaluations": 1, "distinct_nontrivial": 2, "rule": "replay of " + info["replay"], "samples": [(p.get("harness_case") or render(env, "replay", p["ops"], p.get("fault_at_allocation", 0))[0])[:400]]}
     nseq = 300 if tier == "quick" else 3000
     rng = Rng(seed)
     # 1. corpus + fault-free histories
     base = corpus_cases(env)
     for n in range(nseq):
         base.append(("s%d_%d" % (seed, n), gen_history(rng.fork("h%d" % n), env), 0))
+    nfam = 24 if tier == "quick" else 240
+    for n in range(nfam):
+        base.append(("k%d_%d" % (seed, n), gen_many_keys(rng.fork("k%d" % n), env, n, maxkeys=14 if n % 2 else NKEYS), 0))
     res0 = execute(env, base, "base")
     nd0, no0 = analyse(env, base, res0, out, stats)
     # 2. every single allocation-failure position of every history
@@ -577,23 +670,43 @@ def run(info, out):
     for cid, ops, fault in allc:
         key = hashlib.sha256(json.dumps([ops, fault], sort_keys=True).encode()).hexdigest()
         kinds = set(o["k"] for o in ops)
-        if len(kinds) >= 4: distinct.add(key)
+        if len(kinds) >= 4 or any(o["k"] == "dkey" and o.get("stored", 0) >= 3 for o in ops): distinct.add(key)
     for cid, ops, fault in base:
         lens[len(ops)] = lens.get(len(ops), 0) + 1
         for o in ops: opk[o["k"]] = opk.get(o["k"], 0) + 1
-    for cid, _, _ in allc:
-        for r in (res0 if cid in res0 else res1)[cid][0]:
+    rk = {"hit": 0, "miss": 0, "hit_with_10_or_more_keys_stored": 0, "hit_first": 0, "hit_middle": 0, "hit_last": 0, "failed_by_injected_fault": 0,
+          "max_keys_stored_at_a_hit": 0}
+    for cid, ops, _ in allc:
+        iops = (res0 if cid in res0 else res1)[cid][0]
+        for r in iops:
             if "out" in r: outk[r["out"]] = outk.get(r["out"], 0) + 1
+        prevd = {}
+        for o, r in zip(ops, iops):
+            if "end" in r: break
+            if o["k"] == "dkey" and r["out"] != "skipped":
+                if r["out"].startswith("fail"): rk["failed_by_injected_fault"] += 1
+                bk = aux_keys(prevd[o["j"]]) if o["j"] in prevd else None
+                if r["out"] == "ok miss": rk["miss"] += 1
+                elif r["out"] == "ok hit" and bk is not None:
+                    rk["hit"] += 1; kid = "k%d" % KEYS.get(o["key"], 0)
+                    pos = bk.index(kid) if kid in bk else -1
+                    if len(bk) >= 10: rk["hit_with_10_or_more_keys_stored"] += 1
+                    rk["max_keys_stored_at_a_hit"] = max(rk["max_keys_stored_at_a_hit"], len(bk))
+                    rk["hit_first" if pos == 0 else "hit_last" if pos == len(bk) - 1 else "hit_middle"] += 1
+            prevd = dict(r["d"])
     samples = []
     for cid, ops, fault in (base[:1] + faulted[:2]):
         samples.append({"case": cid, "fault_at_allocation": fault, "ops": ops[:8], "impl_outcomes": [r.get("out") for r in (res0 if cid in res0 else res1)[cid][0] if "out" in r][:12]})
     return {"evaluations": len(allc) + searched, "distinct_nontrivial": len(distinct),
-            "rule": "a case = (history of <= 25 operations over <= 3 objects, position of the injected allocation failure or none); non-trivial = at least 4 different "
-                    "operation kinds; distinct by hash of (ops, fault position)",
+            "rule": "a case = (history of <= 25 operations over <= 3 objects — or a history of the many-keys family: one object, 10..16 distinct keys written, "
+                    "removals at the first / a middle / the last position with misses in between, further writes, <= 30 operations —, position of the "
+                    "injected allocation failure or none); non-trivial = at least 4 different operation kinds, or a remove_key that hits a table holding "
+                    ">= 3 keys; distinct by hash of (ops, fault position)",
             "samples": samples, "traces_validated_against_impl": stats.get("traces_validated", 0), "ops_compared": stats.get("ops_compared", 0),
             "input_distribution": {"ops_by_kind_in_fault_free_histories": opk, "implementation_outcomes": outk, "history_lengths": lens,
-                                   "fault_free_histories": len(base), "single_fault_cases": len(faulted), "inputs": len(env.inputs)},
+                                   "fault_free_histories": len(base), "many_keys_family_histories": nfam, "single_fault_cases": len(faulted), "inputs": len(env.inputs),
+                                   "remove_key_calls(all cases)": rk},
             "model_vs_impl_disagreeing_cases": nd0 + nd1, "oracle_anomalies": no0 + no1, "oracle_signatures": stats.get("oracle_signatures", {}),
-            "tree_cfg_bits(aux,clear,conv,fit,eq,perm,moveasg,auxsize)": env.cfgbits, "first_disagreements": [str(d) for d in stats.get("diffs", [])[:5]],
+            "tree_cfg_bits(aux,clear,conv,fit,eq,perm,moveasg,auxsize,rmkey)": env.cfgbits, "first_disagreements": [str(d) for d in stats.get("diffs", [])[:5]],
             "search_volume_after_break": searched, "model_invariant_tested_cases": stats.get("model_invariant_cases", 0),
             "inputs_not_usable": env.unusable[:20]}
